@@ -11,6 +11,7 @@ import (
 	"fmt"
 	"net/netip"
 	"os"
+	"runtime"
 	"sort"
 	"strconv"
 	"strings"
@@ -1908,6 +1909,9 @@ func TestVerifC05(t *testing.T) {
 
 	// ---- part 2: the real HandshakeManager (process-global clock and randomness: strictly serial)
 	machineStates := c.Counter("states").Load()
+	// One P while real nodes are assembled: the E4 assembly waits (bounded Gosched spin) for the lighthouse worker goroutine
+	// to exit; on an oversubscribed machine that goroutine may be parked on another P whose thread gets no CPU in time.
+	defer runtime.GOMAXPROCS(runtime.GOMAXPROCS(1))
 	full2 := c.Thorough()
 	runNet := func(hist []c05NEv) (string, string, []c05NEv) {
 		n := c05NewNet(t, c, st, muts, vars)
